@@ -85,10 +85,12 @@ def decodeText (enc : String) (bs : Bytes) : Option String :=
     | _ => decodeUtf32 true bs
   | _ => none
 
-/-- `haystack.index(needle)` on bytes: first occurrence at any byte offset. -/
-def bytesIndex (hay needle : Bytes) : Option Nat :=
+/-- First occurrence of `needle` in `hay` at a byte offset that is a multiple of `w` (the code-unit width of the
+    encoding: a terminator is a *character*, so in UTF-16 / UTF-32 it can only start on a 2- / 4-byte boundary).
+    `w = 1` is `haystack.index(needle)`. -/
+def bytesIndex (w : Nat) (hay needle : Bytes) : Option Nat :=
   let rec go (h : Bytes) (i : Nat) : Option Nat :=
-    if needle.isPrefixOf h then some i
+    if i % w == 0 && needle.isPrefixOf h then some i
     else match h with
       | [] => none
       | _ :: t => go t (i + 1)
